@@ -362,6 +362,21 @@ func dump(tc testCase, t *transcript) {
 
 // child argument: "seed tier first count"; answer: per case "CASE\t<no>\n" + transcript
 func child(arg string) string {
+	switch os.Getenv("C01_TEST") { // self test of the supervision in spawn (see selfTest)
+	case "spin":
+		for x := 0; ; x++ {
+			_ = x
+		}
+	case "sleep":
+		time.Sleep(time.Hour)
+	case "slow": // a little CPU every second: alive, within budget, too slow for the wall clock
+		for {
+			t := time.Now()
+			for time.Since(t) < 30*time.Millisecond {
+			}
+			time.Sleep(time.Second)
+		}
+	}
 	if pf := os.Getenv("C01_CPUPROFILE"); pf != "" { // debugging aid: where does a child spend its time
 		if fh, err := os.Create(pf); err == nil {
 			pprof.StartCPUProfile(fh)
@@ -386,7 +401,47 @@ func child(arg string) string {
 	return sb.String()
 }
 
-func spawn(arg string, timeout time.Duration) string {
+// limits of one child build.  A build is called `hang` only on evidence that does not depend on how busy the
+// machine is: it has burnt far more CPU than any legitimate build of its size (the heaviest generated shapes
+// cost about 20 s), or it has made no CPU progress at all for minutes (it is blocked).  Running out of wall
+// clock without either is `inconclusive-timeout`, which the driver counts but does not hold against the code.
+type limits struct {
+	cpu   time.Duration // CPU (user + system) the child may consume
+	stall time.Duration // wall clock without any CPU progress
+	wall  time.Duration // wall clock altogether
+}
+
+func limitsFor(heavy bool) limits {
+	if heavy {
+		return limits{cpu: 900 * time.Second, stall: 300 * time.Second, wall: 2 * time.Hour}
+	}
+	return limits{cpu: 400 * time.Second, stall: 300 * time.Second, wall: time.Hour}
+}
+
+// cpuOf reads utime + stime of a process (all threads) from /proc; ok = false when it cannot be read.
+func cpuOf(pid int) (time.Duration, bool) {
+	b, err := os.ReadFile(fmt.Sprintf("/proc/%d/stat", pid))
+	if err != nil {
+		return 0, false
+	}
+	s := string(b)
+	i := strings.LastIndexByte(s, ')') // the command name may contain spaces
+	if i < 0 {
+		return 0, false
+	}
+	f := strings.Fields(s[i+1:])
+	if len(f) < 13 {
+		return 0, false
+	}
+	ut, err1 := strconv.ParseInt(f[11], 10, 64) // fields 14 and 15 of the line, in clock ticks (100 Hz)
+	st, err2 := strconv.ParseInt(f[12], 10, 64)
+	if err1 != nil || err2 != nil {
+		return 0, false
+	}
+	return time.Duration(ut+st) * 10 * time.Millisecond, true
+}
+
+func spawn(arg string, lim limits) string {
 	self, _ := os.Executable()
 	cmd := exec.Command(self)
 	cmd.Env = append(os.Environ(), "HX_CHILD=c01", "GOGC=off", "GOMAXPROCS=4")
@@ -398,12 +453,36 @@ func spawn(arg string, timeout time.Duration) string {
 	}
 	done := make(chan error, 1)
 	go func() { done <- cmd.Wait() }()
-	select {
-	case <-done:
-	case <-time.After(timeout):
-		cmd.Process.Kill()
-		<-done
-		return "hang"
+	start := time.Now()
+	lastCPU, lastProgress := time.Duration(0), start
+	tick := time.NewTicker(500 * time.Millisecond)
+	defer tick.Stop()
+	verdict := ""
+loop:
+	for {
+		select {
+		case <-done:
+			break loop
+		case now := <-tick.C:
+			if cpu, ok := cpuOf(cmd.Process.Pid); ok {
+				if cpu > lastCPU {
+					lastCPU, lastProgress = cpu, now
+				}
+				if cpu > lim.cpu {
+					verdict = "hang" // runaway: far beyond any legitimate build
+				} else if now.Sub(lastProgress) > lim.stall {
+					verdict = "hang" // blocked: no CPU consumed for minutes
+				}
+			}
+			if verdict == "" && now.Sub(start) > lim.wall {
+				verdict = "inconclusive-timeout"
+			}
+			if verdict != "" {
+				cmd.Process.Kill()
+				<-done
+				return verdict
+			}
+		}
 	}
 	s := sb.String()
 	if i := strings.LastIndex(s, "HXRESULT "); i >= 0 {
@@ -432,7 +511,6 @@ func splitCases(res string) map[int]string {
 // ahead of the consumer.
 type runner struct {
 	size, workers, ahead int
-	timeout              time.Duration
 	mu                   sync.Mutex
 	pending              map[int]chan map[int]string
 	sem                  chan struct{}
@@ -445,18 +523,29 @@ func (b *runner) runBlock(blk int) map[int]string {
 	if blk < 0 {
 		first, count = 1000000, len(corpus())
 	}
-	res := spawn(fmt.Sprintf("%d %s %d %d", b.seed, b.tier, first, count), b.timeout)
-	out := splitCases(res)
-	// a case without its final `D` line died (or hung): re-run it one case per child
+	out := map[int]string{}
 	for no := first; no < first+count; no++ {
-		if complete(out[no]) {
+		heavy := no >= 1000000
+		for _, n := range caseOf(b.seed, no, b.tier == "thorough").notes {
+			heavy = heavy || strings.HasPrefix(n, "heavy:")
+		}
+		lim := limitsFor(heavy)
+		arg := fmt.Sprintf("%d %s %d %d", b.seed, b.tier, no, 1)
+		res := spawn(arg, lim)
+		if tr := splitCases(res)[no]; complete(tr) {
+			out[no] = tr
 			continue
 		}
-		r1 := spawn(fmt.Sprintf("%d %s %d %d", b.seed, b.tier, no, 1), b.timeout)
-		if r1 == "crash" || r1 == "hang" {
-			out[no] = "O\tbuild\t" + r1 + "\n"
-		} else if tr := splitCases(r1)[no]; complete(tr) {
+		if res == "hang" || res == "inconclusive-timeout" {
+			out[no] = "O\tbuild\t" + res + "\nN\ttimeout:" + res + "\n"
+			continue
+		}
+		// the child died: once more, to tell a crash of the build from an accident of the machine
+		res = spawn(arg, lim)
+		if tr := splitCases(res)[no]; complete(tr) {
 			out[no] = tr
+		} else if res == "hang" || res == "inconclusive-timeout" {
+			out[no] = "O\tbuild\t" + res + "\nN\ttimeout:" + res + "\n"
 		} else {
 			out[no] = "O\tbuild\tcrash\n"
 		}
@@ -528,10 +617,26 @@ func relay(c *hx.Ctx, tr string) {
 	}
 }
 
+// selfTest (C01_SELFTEST=1): a spinning child must be `hang` by CPU, a sleeping one `hang` by stall, a slow but
+// living one `inconclusive-timeout`.
+func selfTest() {
+	lim := limits{cpu: 3 * time.Second, stall: 4 * time.Second, wall: 10 * time.Second}
+	for _, k := range []string{"spin", "sleep", "slow"} {
+		os.Setenv("C01_TEST", k)
+		t := time.Now()
+		fmt.Printf("%s => %s after %.1fs\n", k, spawn("1 quick 0 1", lim), time.Since(t).Seconds())
+	}
+	os.Unsetenv("C01_TEST")
+}
+
 func main() {
 	hx.RegisterChild("c01", child)
+	if os.Getenv("C01_SELFTEST") != "" && os.Getenv("HX_CHILD") == "" {
+		selfTest()
+		return
+	}
 	quick, thorough := 100, 600
-	run := &runner{size: 1, workers: 12, ahead: 24, timeout: 240 * time.Second}
+	run := &runner{size: 1, workers: 12, ahead: 24}
 	total := func(c *hx.Ctx) int {
 		if c.Thorough() {
 			return thorough
